@@ -157,6 +157,8 @@ def gen_wf():
 
 
 def gen():
+    for sub in ('gen', 'spec', 'lib', 'proofs', 'props'):
+        os.makedirs(os.path.join(COQ, sub), exist_ok=True)
     t = translate()
     s = render_spec()
     a = gen_api()
